@@ -52,6 +52,12 @@ impl EventGen for ReuseElement {
             context.pop_element();
         })?;
         instance_element.expand_compound_size();
+        // (a template may take its size from another element: width="#o~w")
+        instance_element
+            .eval_rel_attributes(context)
+            .inspect_err(|_| {
+                context.pop_element();
+            })?;
         let instance_size = instance_element.size(context).inspect_err(|_| {
             context.pop_element();
         })?;
